@@ -110,11 +110,58 @@ impl Segment {
     }
 
     /// Load the segment state from disk.
+    /// Cuts off what a crash in the middle of a write leaves at the end of the files: an incomplete
+    /// index entry, index entries whose batch is not completely in the log, and the log bytes after
+    /// the last indexed batch. Both files are opened for appending afterwards, so anything left
+    /// there would stay in front of every later record.
+    fn drop_incomplete_tail(&self) -> Result<(), IggyError> {
+        use crate::streaming::batching::message_batch::RETAINED_BATCH_HEADER_LEN;
+        use std::os::unix::fs::FileExt;
+        let open = |path: &str| std::fs::OpenOptions::new().read(true).write(true).open(path);
+        let (Ok(log), Ok(index)) = (open(&self.log_path), open(&self.index_path)) else {
+            return Ok(());
+        };
+        let log_size = log.metadata().map_err(|_| IggyError::CannotReadFileMetadata)?.len();
+        let index_size = index.metadata().map_err(|_| IggyError::CannotReadFileMetadata)?.len();
+        let mut entries = index_size / INDEX_SIZE;
+        let mut valid_log_size = 0;
+        while entries > 0 {
+            let mut entry = [0u8; INDEX_SIZE as usize];
+            let mut header = [0u8; RETAINED_BATCH_HEADER_LEN as usize];
+            index
+                .read_exact_at(&mut entry, (entries - 1) * INDEX_SIZE)
+                .map_err(|_| IggyError::CannotReadFile)?;
+            let position = u32::from_le_bytes(entry[4..8].try_into().unwrap()) as u64;
+            if log.read_exact_at(&mut header, position).is_ok() {
+                let length = u32::from_le_bytes(header[8..12].try_into().unwrap()) as u64;
+                if position + RETAINED_BATCH_HEADER_LEN + length <= log_size {
+                    valid_log_size = position + RETAINED_BATCH_HEADER_LEN + length;
+                    break;
+                }
+            }
+            entries -= 1;
+        }
+        if entries * INDEX_SIZE != index_size || valid_log_size != log_size {
+            warn!(
+                "Dropping incomplete tail of {self}: index {index_size} -> {} bytes, log {log_size} -> {valid_log_size} bytes.",
+                entries * INDEX_SIZE
+            );
+            index
+                .set_len(entries * INDEX_SIZE)
+                .map_err(|_| IggyError::CannotWriteToFile)?;
+            log.set_len(valid_log_size)
+                .map_err(|_| IggyError::CannotWriteToFile)?;
+        }
+        Ok(())
+    }
+
     pub async fn load_from_disk(&mut self) -> Result<(), IggyError> {
         info!(
             "Loading segment from disk: log_path: {}, index_path: {}",
             self.log_path, self.index_path
         );
+
+        self.drop_incomplete_tail()?;
 
         if self.log_reader.is_none() || self.index_reader.is_none() {
             self.initialize_writing().await?;
